@@ -2639,9 +2639,14 @@ class Forest:
         self.check_all()
 
     async def drain(self):
-        pend = [c["task"] for c in self.tasks if c["task"] is not None and not c["task"].done()]
-        if pend:
-            self.stat("drains_with_pending")
+        first = True
+        while True:  # calls nested in executors join the list while we wait
+            pend = [c["task"] for c in self.tasks if c["task"] is not None and not c["task"].done()]
+            if not pend:
+                break
+            if first:
+                self.stat("drains_with_pending")
+                first = False
             await asyncio.wait(pend)
         for c in self.tasks:
             if not c.get("checked"):
